@@ -118,3 +118,23 @@ def run(ctl, P, sc):
         return
     pairs = [[abstract(k, sep), abstract(v, sep)] for k, v in res.items()]
     ctl.log('Result', kind='dict', pairs=pairs, trips=trip.n)
+    # the result belongs to the caller: whatever the caller does to it, parsing the same input again
+    # gives the literals the input denotes (judged by the same rule as the first result)
+    touched = False
+    for v in list(res.values()):
+        if isinstance(v, list):
+            v.append('mutated')
+            touched = True
+        elif isinstance(v, dict):
+            v['mutated'] = 1
+            touched = True
+    if touched:
+        try:
+            res2 = P.parse_to_dict(arg, **kw)
+        except BaseException as e:
+            ctl.log('Result', kind=type(e).__name__, pairs=[], trips=trip.n)
+            return
+        if type(res2) is not dict:
+            ctl.log('Result', kind='not_a_dict', pairs=[], trips=trip.n)
+            return
+        ctl.log('Result', kind='dict', pairs=[[abstract(k, sep), abstract(v, sep)] for k, v in res2.items()], trips=trip.n)
